@@ -1011,7 +1011,7 @@ fn local_fs_case(report: &Report, seed: u64, idx: u64, rng: &mut Rng) {
 
 pub fn run(args: &Args) -> i32 {
     let selftest = args.extra.contains_key("selftest");
-    let report = Report::new(args, "fault_enumeration", RULE, (55, 900)).with_min_nontrivial(30);
+    let report = Report::new(args, "fault_enumeration", RULE, (35, 900)).with_min_nontrivial(30);
     report.assume("part order and the \"Missing part\" check of `complete` follow object_store's S3/GCS/Azure clients (position = order of the put_part call)");
     report.assume("a store that applies complete/put and then reports failure (lost reply) is not generated: no writer could leave the destination clean then");
     report.assume("part size growth after 100 parts (500 MiB) is exercised only in the thorough tier");
